@@ -890,3 +890,156 @@ Example C08_std_contain_inhabited :
        [B ""; B "#x y"; B "?z#w"; B "/x/../y"; B "\x"; B "x/./y?q"; B "..\..\z"; B " /	x"] = true
   /\ std_case (B "web+x://h.x/a/b") [B ""; B "#x"; B "?z"; B "/x"; B "\\h"; B "/\h"; B "../../x"; B "c/d#f"] = true.
 Proof. exact std_contain_inhabited. Qed.
+
+(* ================= 9. both laws for the records of ReachC7 histories - FILE records included ================= *)
+(* ReachC7 (Proofs/C02_Reach8.v, the quantifier of C02_reach_partial7): EVERY parse result without a base outside
+   Known_file_drive (file inputs included), on file records set_fragment / set_query / quirks search / hash,
+   query_pairs_mut sessions and tail joins, everything of ReachC6 from the non-file records.  Every such record is
+   CanonF = Canon (four non-file canonical forms) or FileCanon (C02's fifth form: "file://" [host] path [?q][#f], the
+   segments canonical for a special scheme and not beginning like a drive letter).  Host functions under HostOK2 +
+   host_nonempty + host_no_wdl (the display of a parsed host is no drive letter) - all three proved of the host model
+   under IdnaOK (the ..._model forms). *)
+From RU Require Import Proofs.C02_File Proofs.C02_FileCanon Proofs.C02_FileParse Proofs.C02_Reach8
+  Proofs.C08_AbsFile Proofs.C08_RelFile Proofs.C08_RelFileCanon.
+
+(* 9.1 the absolute law: a fixpoint's text "file://..." has the shape abs_shape (C08_absolute_shape_any with sch = "file"),
+   so the base is never consulted *)
+Theorem C08_absolute_reach7 : forall dbg hp hpo hd, HostOK2 hp hpo hd -> host_nonempty hp hpo -> host_no_wdl hp hd ->
+  forall u b, ReachC7 dbg hp hpo hd u -> join dbg hp hpo hd b (utf8_lossy (ser u)) = POk u.
+Proof. intros dbg hp hpo hd HOK HNE HW u b. exact (absolute_reach7 dbg hp hpo hd HOK HNE HW u b). Qed.
+Check C08_absolute_reach7 : forall dbg hp hpo hd, HostOK2 hp hpo hd -> host_nonempty hp hpo -> host_no_wdl hp hd ->
+  forall u b, ReachC7 dbg hp hpo hd u -> parse_url dbg hp hpo hd None (Some b) (utf8_lossy (ser u)) = POk u.
+Print Assumptions C08_absolute_reach7.
+Theorem C08_absolute_CanonF : forall dbg hp hpo hd, HostOK2 hp hpo hd ->
+  forall u b, Canon hp hpo hd u \/ FileCanon hp hd u -> join dbg hp hpo hd b (utf8_lossy (ser u)) = POk u.
+Proof. exact absolute_CanonF. Qed.
+Print Assumptions C08_absolute_CanonF.
+Theorem C08_absolute_reach7_model : forall dbg idna, IdnaOK idna -> forall u b,
+  ReachC7 dbg (host_parse idna) host_parse_opaque host_display u ->
+  parse_url dbg (host_parse idna) host_parse_opaque host_display None (Some b) (utf8_lossy (ser u)) = POk u.
+Proof. exact absolute_reach7_model. Qed.
+Print Assumptions C08_absolute_reach7_model.
+
+(* 9.2 the file path state on the text make_relative emits: from  pre "/" common "/" ra "/"  the input
+   k x "../" ++ rb "/" ... ++ tl ++ rest  (k = |ra|; ra free of '/' and of drive-letter shapes; common ++ rb and tl canonical
+   file segments, the first not empty) leaves  pre "/" common "/" rb "/" tl  - no drive-letter arm fires, the collapse of
+   leading slashes is the identity, the host flag is kept *)
+Theorem C08_file_path_rel : forall pre dbg common ra rb tl rest hh,
+  forallb no_slash ra = true -> forallb not_wdl_seg ra = true ->
+  forallb fseg_ok (common ++ rb) = true -> fseg_ok tl = true ->
+  match common ++ rb with [] => True | s :: _ => s <> [] end -> rest_qh rest ->
+  parse_path_loop dbg CUrlParser STFile (nlen pre) (dots_text ra ++ segs_text rb ++ tl ++ rest)
+    (Bs pre (common ++ ra)) (nlen (Bs pre (common ++ ra))) [] hh
+  = POk (Bs pre (common ++ rb) ++ tl, hh, rest).
+Proof. exact loop_rel_f. Qed.
+Print Assumptions C08_file_path_rel.
+
+(* 9.3 the inverse law on explicit records  "file://" R "/" seg "/" ... "/" last [?q][#f]  (hier_url, any stored offsets
+   behind scheme_end = 4): target canonical (rel_ok_f: fseg_ok segments, SPECIAL_QUERY-clean query, clean fragment),
+   base segments merely free of '/'.  The one reference that leaves the relative arm of parse_file - "/" from
+   file://h/name to file://h/ , through the one-slash arm, which builds a NEW record from host_str - is a premise here
+   and is discharged for canonical records in C08_relative_FileCanon *)
+Theorem C08_relative_file_hier : forall dbg hp hpo hd pre ue hs he hi po bsegs blast bq bf tsegs tlast tq tf r,
+  rel_ok_f pre bsegs blast tsegs tlast tq tf ->
+  (bsegs = [] -> tsegs = [] -> tlast = [] -> blast <> [] ->
+   join dbg hp hpo hd (hier_url pre 4 ue hs he hi po bsegs blast bq bf) (47 :: qf_text tq tf)
+   = POk (hier_url pre 4 ue hs he hi po tsegs tlast tq tf)) ->
+  mr_ok (hier_url pre 4 ue hs he hi po bsegs blast bq bf) (hier_url pre 4 ue hs he hi po tsegs tlast tq tf) = true ->
+  make_relative dbg (hier_url pre 4 ue hs he hi po bsegs blast bq bf)
+                    (hier_url pre 4 ue hs he hi po tsegs tlast tq tf) = Some (Some r) ->
+  join dbg hp hpo hd (hier_url pre 4 ue hs he hi po bsegs blast bq bf) r
+  = POk (hier_url pre 4 ue hs he hi po tsegs tlast tq tf).
+Proof. exact relative_file_hier. Qed.
+Print Assumptions C08_relative_file_hier.
+(* ... and the root reference for canonical file records *)
+Theorem C08_join_root_file : forall dbg hp hpo hd ho blast bq bf tq tf,
+  fhost_ok hp hd ho -> no_slash blast = true -> is_normalized_wdl blast = false ->
+  opt_clean T_SPECIAL_QUERY tq -> opt_clean T_FRAGMENT tf ->
+  opt_le (qf_qs (nlen (file_front hd ho ++ [47])) tq) U32_MAX_P ->
+  opt_le (qf_fs (nlen (file_front hd ho ++ [47])) tq tf) U32_MAX_P ->
+  join dbg hp hpo hd (file_curl hd ho (path_text [] blast) bq bf) (47 :: qf_text tq tf)
+  = POk (file_curl hd ho (path_text [] []) tq tf).
+Proof. exact join_root_file. Qed.
+Print Assumptions C08_join_root_file.
+
+(* 9.4 the inverse law for two canonical file records (no hypothesis on the host functions at all: the host of a
+   FileCanon record carries its own round-trip clause), for two records of the five forms, for two ReachC7 records *)
+Theorem C08_relative_FileCanon : forall dbg hp hpo hd b t r, FileCanon hp hd b -> FileCanon hp hd t ->
+  mr_ok b t = true -> make_relative dbg b t = Some (Some r) ->
+  join dbg hp hpo hd b r = POk t.
+Proof. exact relative_FileCanon. Qed.
+Print Assumptions C08_relative_FileCanon.
+Theorem C08_relative_CanonF : forall dbg hp hpo hd, HostOK2 hp hpo hd -> forall b t r,
+  Canon hp hpo hd b \/ FileCanon hp hd b -> Canon hp hpo hd t \/ FileCanon hp hd t ->
+  mr_ok b t = true -> make_relative dbg b t = Some (Some r) ->
+  join dbg hp hpo hd b r = POk t.
+Proof. exact relative_CanonF. Qed.
+Print Assumptions C08_relative_CanonF.
+Theorem C08_relative_reach7 : forall dbg hp hpo hd, HostOK2 hp hpo hd -> host_nonempty hp hpo -> host_no_wdl hp hd ->
+  forall b t r, ReachC7 dbg hp hpo hd b -> ReachC7 dbg hp hpo hd t ->
+  mr_ok b t = true -> make_relative dbg b t = Some (Some r) ->
+  join dbg hp hpo hd b r = POk t.
+Proof. intros dbg hp hpo hd HOK HNE HW b t r. exact (relative_reach7 dbg hp hpo hd HOK HNE HW b t r). Qed.
+Check C08_relative_reach7 : forall dbg hp hpo hd, HostOK2 hp hpo hd -> host_nonempty hp hpo -> host_no_wdl hp hd ->
+  forall b t r, ReachC7 dbg hp hpo hd b -> ReachC7 dbg hp hpo hd t ->
+  mr_ok b t = true -> make_relative dbg b t = Some (Some r) ->
+  parse_url dbg hp hpo hd None (Some b) r = POk t.
+Print Assumptions C08_relative_reach7.
+Theorem C08_relative_reach7_model : forall dbg idna, IdnaOK idna -> forall b t r,
+  ReachC7 dbg (host_parse idna) host_parse_opaque host_display b ->
+  ReachC7 dbg (host_parse idna) host_parse_opaque host_display t ->
+  mr_ok b t = true -> make_relative dbg b t = Some (Some r) ->
+  parse_url dbg (host_parse idna) host_parse_opaque host_display None (Some b) r = POk t.
+Proof. exact relative_reach7_model. Qed.
+Print Assumptions C08_relative_reach7_model.
+
+(* 9.5 C08_relative_statement2 / the absolute law for ALL parse results - file URLs included - with the ONE premise on the
+   records that they are outside Known_file_drive (no path segment begins like a drive letter; for non-file records the
+   premise is void), under HostOK2 + host_nonempty + host_no_wdl.  What is still missing towards
+   C08_relative_statement2: file records with a segment that begins like a drive letter ("c:", "c|", also "c:x" - MR_ok's
+   class 45 excludes only the first two shapes) *)
+Theorem C08_relative_parsed_all : forall dbg hp hpo hd, HostOK2 hp hpo hd -> host_nonempty hp hpo -> host_no_wdl hp hd ->
+  forall b t r, parsed dbg hp hpo hd b -> parsed dbg hp hpo hd t ->
+  Known_file_drive b = false -> Known_file_drive t = false ->
+  mr_ok b t = true -> make_relative dbg b t = Some (Some r) ->
+  join dbg hp hpo hd b r = POk t.
+Proof.
+  intros dbg hp hpo hd HOK HNE HW b t r (bi & Hub & Pb) (ti & Hut & Pt) Kb Kt.
+  exact (relative_reach7 dbg hp hpo hd HOK HNE HW b t r
+           (RC7_parse dbg hp hpo hd None bi b Hub Pb Kb) (RC7_parse dbg hp hpo hd None ti t Hut Pt Kt)).
+Qed.
+Check C08_relative_parsed_all : forall dbg hp hpo hd, HostOK2 hp hpo hd -> host_nonempty hp hpo -> host_no_wdl hp hd ->
+  forall b t r,
+  (exists input, usv_list input /\ parse_url dbg hp hpo hd None None input = POk b) ->
+  (exists input, usv_list input /\ parse_url dbg hp hpo hd None None input = POk t) ->
+  Known_file_drive b = false -> Known_file_drive t = false ->
+  mr_ok b t = true -> make_relative dbg b t = Some (Some r) ->
+  parse_url dbg hp hpo hd None (Some b) r = POk t.
+Print Assumptions C08_relative_parsed_all.
+Theorem C08_absolute_parsed_all : forall dbg hp hpo hd, HostOK2 hp hpo hd -> host_nonempty hp hpo -> host_no_wdl hp hd ->
+  forall u b, parsed dbg hp hpo hd u -> Known_file_drive u = false ->
+  join dbg hp hpo hd b (utf8_lossy (ser u)) = POk u.
+Proof.
+  intros dbg hp hpo hd HOK HNE HW u b (ui & Hu & Pu) Ku.
+  exact (absolute_reach7 dbg hp hpo hd HOK HNE HW u b (RC7_parse dbg hp hpo hd None ui u Hu Pu Ku)).
+Qed.
+Print Assumptions C08_absolute_parsed_all.
+
+(* non-vacuity on the host model with idna_clean: file records of ReachC7 histories resolve to themselves against
+   special / file / opaque / non-special bases; six (base, target) pairs of file records inside MR_ok - sub-directory,
+   '../' steps with query and fragment, "?q" after set_query, "/" at the root (one-slash arm), the no-slash and
+   one-slash entries of parse_file, "localhost" dropped and the empty reference - with the reference make_relative
+   answers and its resolution *)
+Example C08_reach7_inhabited :
+  (m_abs (m_parse "file://h.x/a/../b c?q#f") "http://other/dir/file?x#y" = true
+   /\ m_abs (m_parse "file://localhost/x\y") "file://host/c:/z" = true
+   /\ m_abs (m_parse "file:x") "mailto:a@b" = true
+   /\ m_abs (m_hist "file:///a/b" [OSetFragment (Some (B "z")); OSetQuery (Some (B "k v"))]) "file:///q" = true
+   /\ m_abs (C02_Reach6.m_join "file://h.x/a/b?q#f" "?k") "a://h/p" = true)
+  /\ (mf_case (m_parse "file:///tmp/a") (m_parse "file:///tmp/b/c/") "b/c/" = true
+      /\ mf_case (m_parse "file://h.x/a/b/c?bq") (m_parse "file://h.x/a/d/e#f") "../d/e#f" = true
+      /\ mf_case (m_parse "file://h.x/a/b") (m_hist "file://h.x/a/b" [OSetQuery (Some (B "k v"))]) "?k%20v" = true
+      /\ mf_case (m_parse "file://h.x/f?q") (m_parse "file://h.x/") "/" = true
+      /\ mf_case (m_parse "file:/x/y/z") (m_parse "file:x") "../../x" = true
+      /\ mf_case (m_parse "file://localhost/a/b#x") (m_parse "file:///a/b") "" = true).
+Proof. split; [exact abs_reach7_example | exact rel_reach7_example]. Qed.
